@@ -134,7 +134,8 @@ def rot_rules(chk):
         cc = "%s(%s)" % (cs, label)
         calls = [e for e in r.events("call", fs.qualname) if e.callee == M + "combine_at_angle"]
         if not calls:
-            chk.ob("R-ROT-SCAN", cc, "the scan calls combine_at_angle", False, derived="no call", loc=fs.loc())
+            chk.ob("R-ROT-SCAN", cc, "the scan calls combine_at_angle", False, derived="no call", loc=fs.loc(),
+                   inconclusive=any(e.kind == "unmodelled" for e in r.I.events))      # something on the path is not followed (a lazy map ...)
             continue
         b = calls[-1].bound
         expect(chk, "R-ROT-SCAN", cc + "{angle}", b[ang], tags_has=["loopvar", "linspace", "p:angle_off_ns"], loc=calls[-1].loc)
